@@ -353,3 +353,24 @@ def memo_rule(prog: Program, res, rule: str, scope, what: str) -> None:
                 raise AnalysisError(f"{rule}: hand-rolled memoisation of {fi.short} in `{g}`: completeness of the key {unparse(kexpr)[:60]} cannot be decided")
     if n == 0:
         res.ok(rule, "no memoisation", "no functools cache decorator and no module-level result cache in scope: every result is recomputed from its inputs", nontrivial=False)
+
+
+def expand_locals(fn, expr: ast.AST, keep: set, depth: int = 3) -> ast.AST:
+    """copy of expr with every local that has exactly one definition replaced by that definition
+    (so that `num_bins = len(binning)` … `i <= num_bins` reads `i <= len(binning)`)"""
+    import copy
+
+    from ..dataflow import single_def_value
+
+    class T(ast.NodeTransformer):
+        def __init__(self, d):
+            self.d = d
+
+        def visit_Name(self, n):
+            if isinstance(n.ctx, ast.Load) and n.id not in keep and self.d > 0:
+                v = single_def_value(fn, n.id)
+                if v is not None and not isinstance(v, (ast.Lambda, ast.Dict, ast.List, ast.ListComp, ast.DictComp, ast.GeneratorExp)):
+                    return T(self.d - 1).visit(copy.deepcopy(v))
+            return n
+
+    return T(depth).visit(copy.deepcopy(expr))
